@@ -132,6 +132,24 @@ pub fn sr_rr_spaces(tier: Tier, seed: u64) -> Vec<CfgSpace> {
         }
     }));
 
+    // (2b) cumulative-lost over the whole 32-bit walk: values above 24 bits are the builder's to refuse, but whatever
+    // it accepts must come back unchanged (a sign-extended "negative" loss that is let through would come back
+    // truncated)
+    let w32c = w32.clone();
+    let nc = w32c.len() as u64;
+    v.push(CfgSpace::new("rb-cumulative-lost-32-bit-walk", nc * 2 * 3, move |idx| {
+        let cum = w32c[(idx % nc) as usize];
+        let sr = (idx / nc) % 2 == 0;
+        let n = [1usize, 2, 31][(idx / nc / 2) as usize];
+        let mut blocks: Vec<Rb> = (0..n).map(|i| sentinel_rb(i, salt)).collect();
+        blocks[n - 1].cum = cum;
+        if sr {
+            Pkt::Sr { ssrc: 1, ntp: 2, rtp: 3, pc: 4, oc: 5, blocks, pad: 0 }
+        } else {
+            Pkt::Rr { ssrc: 1, blocks, pad: 4 }
+        }
+    }));
+
     // (3) fraction-lost x cumulative-lost share a word: full product
     let w24b = w24.clone();
     let nw = w24b.len() as u64;
@@ -364,7 +382,44 @@ pub fn bye_spaces(_tier: Tier, seed: u64) -> Vec<CfgSpace> {
         let n = c[0] as usize;
         let ssrcs = (0..n).map(|i| if i % 5 == 4 { i as u32 } else { 0x0B0C_0000 ^ ((i as u32) << 24) ^ i as u32 }).collect();
         Pkt::Bye { ssrcs, reason: text(c[1] as usize, seed ^ idx, idx % 7 == 0), pad: pads[c[2] as usize] }
+    }),
+    // reasons of multi-byte characters around and above the 255-BYTE limit whose CHARACTER count stays at or below
+    // 255 (the limit is on bytes: above it the builder must refuse, at or below it the reason must come back whole)
+    CfgSpace::new("bye-multibyte-reasons-around-the-limit", LONG_REASONS * 3 * 2, move |idx| {
+        let reason = long_multibyte_text((idx % LONG_REASONS) as usize);
+        let n = [0usize, 1, 31][((idx / LONG_REASONS) % 3) as usize];
+        Pkt::Bye { ssrcs: (0..n as u32).map(|i| 0x0A00_0000 + i).collect(), reason, pad: if idx / LONG_REASONS / 3 == 0 { 0 } else { 8 } }
     })]
+}
+
+pub const LONG_REASONS: u64 = 14;
+/// multi-byte texts of 252..=1020 bytes with at most 255 characters
+pub fn long_multibyte_text(k: usize) -> String {
+    // (character, how many of them, ASCII filler count)
+    let (ch, n, fill): (char, usize, usize) = match k {
+        0 => ('é', 126, 0),      // 252 bytes
+        1 => ('é', 127, 0),      // 254
+        2 => ('é', 127, 1),      // 255
+        3 => ('é', 128, 0),      // 256 bytes, 128 characters
+        4 => ('é', 128, 1),      // 257
+        5 => ('é', 129, 0),      // 258
+        6 => ('€', 85, 0),       // 255
+        7 => ('€', 85, 1),       // 256
+        8 => ('€', 86, 0),       // 258
+        9 => ('€', 200, 0),      // 600
+        10 => ('€', 255, 0),     // 765 bytes, 255 characters
+        11 => ('\u{1F600}', 63, 3), // 255
+        12 => ('\u{1F600}', 64, 0), // 256
+        _ => ('\u{1F600}', 255, 0), // 1020 bytes, 255 characters
+    };
+    let mut s = String::new();
+    for _ in 0..n {
+        s.push(ch);
+    }
+    for _ in 0..fill {
+        s.push('z');
+    }
+    s
 }
 
 pub const APP_NAMES: [&str; 8] = ["", "a", "ab", "abc", "abcd", "a\0b", "\0", "\x7f~ Z"];
